@@ -6,6 +6,7 @@ mod conc;
 mod configeng;
 mod damage;
 mod mem;
+mod periodic;
 mod persist;
 mod qcache;
 mod sched;
@@ -35,6 +36,7 @@ fn main() {
         Some("codec") => codec::run(),
         Some("conc") => conc::run(),
         Some("rpc") => rpc::run(),
+        Some("periodic") => periodic::run(),
         _ => {
             eprintln!("usage: kvh <engine>");
             std::process::exit(2);
